@@ -96,7 +96,10 @@ def run_impl(ops):
         if isinstance(v, bool) or isinstance(v, int):
             return 'int'
         return 'str'
-    for op in ops:
+    def sym(s, k):
+        """the class, or - every other time for a generic one - its subscripted alias"""
+        return U.ALIAS[s] if s in U.ALIAS and k % 2 else U.SYMS[s]
+    for k_, op in enumerate(ops):
         try:
             if op[0] == 'new':
                 defs = {}
@@ -115,24 +118,24 @@ def run_impl(ops):
                 obs.append(('unit',))
             elif op[0] == 'bind':
                 cops.append(op)
-                pool[op[1]].bind(U.SYMS[op[2]], U.FACS[op[3]])
+                pool[op[1]].bind(sym(op[2], k_), U.FACS[op[3]])
                 obs.append(('unit',))
             elif op[0] == 'unbind':
                 cops.append(op)
-                pool[op[1]].unbind(U.SYMS[op[2]])
+                pool[op[1]].unbind(sym(op[2], k_))
                 obs.append(('unit',))
             elif op[0] == 'rebind':
                 cops.append(op)
-                pool[op[1]].rebind(U.SYMS[op[2]], U.FACS[op[3]])
+                pool[op[1]].rebind(sym(op[2], k_), U.FACS[op[3]])
                 obs.append(('unit',))
             elif op[0] == 'resolve':
                 cops.append(op)
-                v = pool[op[1]].resolve(U.SYMS[op[2]])
+                v = pool[op[1]].resolve(sym(op[2], k_))
                 made.append(v)
                 obs.append(('val', enc(v)))
             elif op[0] == 'can':
                 cops.append(op)
-                obs.append(('bool', bool(pool[op[1]].can_resolve(U.SYMS[op[2]]))))
+                obs.append(('bool', bool(pool[op[1]].can_resolve(sym(op[2], k_)))))
             elif op[0] == 'invoke':
                 args = []
                 for a in op[3]:
